@@ -397,41 +397,52 @@ pub(crate) mod b {
         println!("BOUNDED-CASES {}", n);
     }
 
-    /// C16 + C17: the legend is cut off at '# Legend:' exactly when the grammar accepts it; the drawing
-    /// before it is untouched; CRLF line endings and trailing blanks give the same css and cells
+    /// C16 + C17: the legend is cut off at '# Legend:'; the drawing before it is untouched; the rules are the
+    /// expected ones (written down here, not taken from the parser); LF / CRLF, trailing blanks at every line
+    /// end (also inside the legend and inside a style body that spans lines) and trailing blank lines give the
+    /// same cells, quoted texts and css
     #[test]
     fn bounded_legend_cut_and_line_endings() {
         let drawings = ["", "+--+\n|ab|\n+--+\n", "x\n\n", " \"q\" -\n", "┌─┐\n│é│\n└─┘\n", "一二\n┘\n└──┘\n\n"];
-        let legends = ["# Legend:\na = {fill:red}", "# Legend:\na = {f}\nb1 = {s:1;\nt:2}", "# Legend:\n_x = {}\n", "# Legend:\na = {f}\n\nb = {g}", "# Legend:\n\na = {f}"];
+        let legends: [(&str, &[(&str, &str)]); 8] = [
+            ("# Legend:\na = {fill:red}", &[("a", "fill:red")]),
+            ("# Legend:\na = {f}\nb1 = {s:1;\nt:2}", &[("a", "f"), ("b1", "s:1;\nt:2")]),
+            ("# Legend:\n_x = {}\n", &[("_x", "")]),
+            ("# Legend:\na = {f}\n\nb = {g}", &[("a", "f")]),
+            ("# Legend:\n\na = {f}", &[]),
+            ("# Legend:", &[]),
+            ("# Legend:\na = {f;\n\n g }\nb = {h}\nc = {i}", &[("a", "f;\n\n g "), ("b", "h"), ("c", "i")]),
+            ("# Legend:\na = {é:一}\nb = {x}", &[("a", "é:一"), ("b", "x")]),
+        ];
+        let cells = |cb: &CellBuffer| cb.iter().map(|(c, ch)| (*c, *ch)).collect::<Vec<(Cell, char)>>();
         let mut n = 0u64;
         for d in drawings {
-            for l in legends {
-                for trail in ["", "\n", "  \n\n", "\t"] {
-                    let lf = format!("{}{}{}", d, l, trail);
-                    let crlf = lf.replace('\n', "\r\n");
-                    let base = CellBuffer::from(d);
-                    let a = CellBuffer::from(lf.as_str());
-                    let b = CellBuffer::from(crlf.as_str());
-                    let cells = |cb: &CellBuffer| cb.iter().map(|(c, ch)| (*c, *ch)).collect::<Vec<(Cell, char)>>();
-                    let want_css = crate::util::parser::parse_css_legend(&format!("{}{}", l, trail)).expect("legend");
-                    if cells(&a) != cells(&base) {
-                        println!("BOUNDED-WITNESS legend not cut off cleanly (LF): {:?}", lf);
-                        panic!("legend is never drawn and the drawing is untouched");
+            let base = CellBuffer::from(d);
+            for (l, entries) in legends {
+                let want = entries.iter().map(|(c, s)| format!(".svgbob .{}{{ {} }}", c, s)).collect::<Vec<_>>().join("\n");
+                let doc = format!("{}{}", d, l);
+                let a = CellBuffer::from(doc.as_str());
+                if cells(&a) != cells(&base) || a.escaped_text != base.escaped_text {
+                    println!("BOUNDED-WITNESS legend not cut off cleanly: {:?}", doc);
+                    panic!("legend is never drawn and the drawing is untouched");
+                }
+                if a.legend_css() != want {
+                    println!("BOUNDED-WITNESS {:?}: css {:?} want {:?}", doc, a.legend_css(), want);
+                    panic!("rules in order");
+                }
+                for blanks in ["", " ", "\t  "] {
+                    for tail in ["", "\n", "\n\n\n", "\n  \n\t\n"] {
+                        for eol in ["\n", "\r\n"] {
+                            // blanks in front of every line end and at the end of the last line, then the tail
+                            let text = format!("{}{}{}", doc.replace('\n', &format!("{}\n", blanks)), blanks, tail).replace('\n', eol);
+                            let b = CellBuffer::from(text.as_str());
+                            if cells(&b) != cells(&a) || b.escaped_text != a.escaped_text || b.legend_css() != a.legend_css() {
+                                println!("BOUNDED-WITNESS {:?} differs from {:?}: cells {:?} css {:?} (want css {:?})", text, doc, cells(&b), b.legend_css(), a.legend_css());
+                                panic!("line ending convention, trailing blanks and trailing blank lines do not matter");
+                            }
+                            n += 1;
+                        }
                     }
-                    // the css of an entry may legitimately contain the line ending it was written with
-                    let norm = |s: String| s.replace("\r\n", "\n");
-                    let css_a = a.legend_css();
-                    let css_b = norm(b.legend_css());
-                    if cells(&b) != cells(&base) || css_b != css_a {
-                        println!("BOUNDED-WITNESS CRLF changes the result for {:?}: cells {:?} css {:?} (LF: css {:?})", lf, cells(&b), css_b, css_a);
-                        panic!("CRLF renders like LF");
-                    }
-                    let want = want_css.iter().map(|(c, s)| format!(".svgbob .{}{{ {} }}", c, s)).collect::<Vec<_>>().join("\n");
-                    if css_a != want {
-                        println!("BOUNDED-WITNESS css {:?} want {:?}", css_a, want);
-                        panic!("rules in order");
-                    }
-                    n += 1;
                 }
             }
         }
